@@ -23,3 +23,5 @@ func verifIntercept(it *iteration) bool { return false }
 func verifInitClock(db *DB) {}
 
 func verifTicker(ticker *time.Ticker, name string) {}
+
+func verifClosed(db *DB) bool { return false }
